@@ -154,11 +154,11 @@ func TestMC_C30(t *testing.T) {
 		as         crypto.Hash
 		msg        []byte
 		timeout    int64
-		mustReject bool      // by construction a modification of a signed message
+		mustReject bool       // by construction a modification of a signed message
 		signer     *c30Signer // known signer of the (unmodified) body, nil if unknown
-		flag       int       // builder's flag, -1 if unknown
-		wantAccept int       // by construction: 1 accept expected, 0 reject expected, -1 unknown
-		pinOff     bool  // E1: the case only counts when ts - now == needOff at the call
+		flag       int        // builder's flag, -1 if unknown
+		wantAccept int        // by construction: 1 accept expected, 0 reject expected, -1 unknown
+		pinOff     bool       // E1: the case only counts when ts - now == needOff at the call
 		needOff    int64
 	}
 	var judgeRetry func(x ctx) (accepted, retry bool)
@@ -239,9 +239,9 @@ func TestMC_C30(t *testing.T) {
 		case !lenOK:
 			viol("accept:length", fmt.Sprintf("message of %d bytes accepted", len(msg)))
 		case !sigOK:
-			viol("accept:not-signed-by-named-key:"+x.kind, "accepted although the signature does not verify under the named key over the 73 signed bytes")
+			viol("accept:not-signed-by-named-key", "accepted although the signature does not verify under the named key over the 73 signed bytes")
 		case !rcptOK:
-			viol("accept:wrong-recipient:"+x.kind, fmt.Sprintf("accepted as %s although addressed to %x", x.as, msg[8:40]))
+			viol("accept:wrong-recipient", fmt.Sprintf("accepted as %s although addressed to %x", x.as, msg[8:40]))
 		case !skewOK:
 			dir := "past"
 			if int64(ts) > r.sec {
